@@ -161,10 +161,12 @@ func decodePacked6BitAscii(b []byte, c int) (string, int, error) {
 }
 
 func decode8BitAsciiLatin1(b []byte, c int) (string, int, error) {
-	if len(b) < 2 {
+	if c == 1 {
 		// it is unclear why this limitation exists, but it's plain to
-		// see in the specification
-		return "", 0, fmt.Errorf("at least 2 bytes of data must be present; got %v bytes", len(b))
+		// see in the specification: at least 2 bytes of data must be present
+		// when this type is used, so the length is 0 (no data) or >1; a
+		// length of 1 is reserved
+		return "", 0, fmt.Errorf("at least 2 bytes of data must be present; got a length of %v", c)
 	}
 
 	// bounds check to ensure the slicing below does not panic
